@@ -297,6 +297,32 @@ def _attr_case(C):
         stored = {"polarization": pol, "magnetization": mag}[which]
         C.oblige(f"setter-{which}.stored", CTX.pc, neq_any(stored, v), inputs=list(v))
     C.paths += 2
+    # the low-magnetization warning escalated to an error (python -W error): the setter raises, and the two attributes must still be consistent
+    import warnings
+
+    CTX.reset([])
+    v = symarr("w", (3,))
+    CTX.pre = [z3.And(toz(x) > -100, toz(x) < 100) for x in v]
+    CTX.reset([])
+    src3 = magpylib.magnet.Cuboid(dimension=(1, 1, 1), polarization=(0, 0, 1))
+    raised = False
+    with warnings.catch_warnings():
+        warnings.simplefilter("error")
+        try:
+            src3.magnetization = v
+        except Warning:
+            raised = True
+        except Exception as e:  # noqa
+            C.note_inconclusive("setter-magnetization-warning-as-error", f"raised {type(e).__name__}: {e}")
+    pol, mag = src3._polarization, src3._magnetization
+    if pol is not None and mag is not None:
+        K = toz(float(4 * np.pi * 1e-7)) if "C02-setter-legacy-mu0" in C.known else MU0
+        viol = z3.Or(*[toz(pol[c]) != K * toz(mag[c]) for c in range(3)])
+        C.oblige("setter-magnetization-warning-as-error.consistent", CTX.pc, viol, inputs=list(v),
+                 on_model=lambda env: {"key": "C02|BaseMagnet.magnetization.setter|warning-as-error",
+                                       "replay": {"kind": "attr-warn", "value": [env.get(f"w_{k}", 0.0) or 0.0 for k in range(3)]}},
+                 sample=f"magnetization = v with |v|<100 under warnings-as-errors (raised={raised}): polarization and magnetization stay related by the constant")
+    C.paths += 1
     # None assignment: documented 'not yet set'
     for which in ("polarization", "magnetization"):
         src2 = magpylib.magnet.Cuboid(dimension=(1, 1, 1), polarization=(0, 0, 1))
@@ -330,6 +356,20 @@ def replay(spec):
         rhs = magpylib.mu_0 * np.array(src.magnetization)
         bad = not rel_close(lhs, rhs, 1e-12)
         return bad, f"magnet.{spec['which']}={spec['value']}: polarization={lhs.tolist()} mu_0*magnetization={rhs.tolist()}"
+    if kind == "attr-warn":
+        import warnings
+
+        src = magpylib.magnet.Cuboid(dimension=(1, 1, 1), polarization=(0, 0, 1))
+        with warnings.catch_warnings():
+            warnings.simplefilter("error")
+            try:
+                src.magnetization = spec["value"]
+            except Warning:
+                pass
+        lhs = np.array(src.polarization, dtype=float)
+        rhs = magpylib.mu_0 * np.array(src.magnetization, dtype=float)
+        bad = not rel_close(lhs, rhs, 1e-8, 1e-300)
+        return bad, f"magnetization={spec['value']} with warnings as errors: polarization={lhs.tolist()} mu_0*magnetization={rhs.tolist()}"
     if kind == "attr-none":
         src = magpylib.magnet.Cuboid(dimension=(1, 1, 1), polarization=(0, 0, 1))
         try:
